@@ -29,8 +29,11 @@ class GenState:
     vals['elem'] = v
     ns = NS(ctx, vals, heap=None, old=ctx.entry_old_ns)
     ctx.cur_line = getattr(node, 'lineno', ctx.cur_line)
+    npc = len(ctx.pc)
     for cl in self.contract.yields:
-      ctx.oblige(cl.fn(ns), cl.label, 'yield', cl.props)
+      g = cl.fn(ns)
+      ctx.oblige(g, cl.label, 'yield', cl.props)
+      ctx.assume(g)
 
 
 def resolve_modifies(ctx, contract, values):
@@ -118,6 +121,12 @@ def check_return(ctx, contract, values, result, entry_marks, fdef, env):
   ctx.cur_line = fdef.lineno
   ctx.cur_func = contract.qualname
   vals = dict(values)
+  if isinstance(result, VOpt) and contract.result is not None and not isinstance(
+      contract.result, TOpt):
+    ctx.oblige(z3.Not(result.none), 'result is not None', 'post',
+               contract.props)
+    ctx.assume(z3.Not(result.none))
+    result = result.val
   if contract.result is not None:
     result = symexec.conform(ctx, result, contract.result)
   vals['result'] = result
@@ -125,7 +134,9 @@ def check_return(ctx, contract, values, result, entry_marks, fdef, env):
     vals['n_yields'] = VInt(env.gen.count)
   ns = NS(ctx, vals, heap=None, old=ctx.entry_old_ns)
   for cl in contract.ensures:
-    ctx.oblige(cl.fn(ns), cl.label, 'post', cl.props)
+    g = cl.fn(ns)
+    ctx.oblige(g, cl.label, 'post', cl.props)
+    ctx.assume(g)      # proved clauses may be used by the following ones
   for exc, cl in contract.raises.items():
     ctx.oblige(z3.Not(symexec.to_term(cl.fn(ctx.entry_old_ns))),
                'returns-only-if-not(%s)' % cl.label, 'raises', cl.props)
